@@ -244,6 +244,18 @@ func caseVariants(rng *gen.RNG, name string, n int) []string {
 func largeNumberStrings(emit func(name, class string)) {
 	nums := []string{"4294967302", "4294967326", "9223372036854775807", "9223372036854775808", "9223372036854775814", "18446744073709551615", "18446744073709551616",
 		"18446744073709551622", "18446744073709551646", "36893488147419103238", "99999999999999999999", "340282366920938463463374607431768211462", "00000000000000000006", "0000000000000000000000030"}
+	// numbers that fit the machine word themselves but whose product with the unit (60, 3600) does not, chosen so that
+	// the wrapped product is a small positive value: ceil(k*2^w / unit) for w = 31, 32, 63, 64
+	for _, w := range []uint{31, 32, 63, 64} {
+		for k := int64(1); k <= 3; k++ {
+			for _, unit := range []int64{60, 3600} {
+				n := new(big.Int).Lsh(big.NewInt(k), w)
+				n.Div(n, big.NewInt(unit))
+				n.Add(n, big.NewInt(1))
+				nums = append(nums, n.String())
+			}
+		}
+	}
 	for _, n := range nums {
 		emit("OCRA-1:HOTP-SHA1-"+n+":QN08", "number:digits:"+n)
 		emit("OCRA-1:HOTP-SHA256-"+n+":C-QN10-PSHA1", "number:digits:"+n)
@@ -274,6 +286,23 @@ func bitFlipStrings(emit func(name, class string)) {
 					continue
 				}
 				emit(sname, "malformed:bit-flip")
+			}
+		}
+	}
+}
+
+// unicodeFoldStrings: good strings with one ASCII letter replaced by a non-ASCII letter that Unicode case mapping or
+// folding sends onto it (U+017F long s -> S, U+212A Kelvin sign -> K, U+0131 dotless i / U+0130 -> I), or by its
+// full-width form. None of them is the RFC token; accepting them approximates.
+func unicodeFoldStrings(emit func(name, kind string)) {
+	repl := map[byte][]string{'S': {"\u017f"}, 's': {"\u017f"}, 'K': {"\u212a"}, 'k': {"\u212a"}, 'I': {"\u0131", "\u0130"}, 'i': {"\u0131", "\u0130"}}
+	for _, g := range []string{"OCRA-1:HOTP-SHA1-6:QN08", "OCRA-1:HOTP-SHA256-8:C-QA10-PSHA256-S064-T30S", "OCRA-1:HOTP-SHA512-10:QH10-PSHA1-S-T2H", "ocra-1:hotp-sha1-6:qn08-psha1-s-t1s"} {
+		for i := 0; i < len(g); i++ {
+			for _, r := range repl[g[i]] {
+				emit(g[:i]+r+g[i+1:], "malformed:unicode-fold")
+			}
+			if c := g[i]; c >= 'A' && c <= 'Z' || c >= 'a' && c <= 'z' || c >= '0' && c <= '9' {
+				emit(g[:i]+string(rune(0xFF00+int(c)-0x20))+g[i+1:], "malformed:full-width")
 			}
 		}
 	}
@@ -382,6 +411,7 @@ func init() {
 				}
 			})
 			largeNumberStrings(func(n, class string) { cases = append(cases, nameCase{Name: n, Class: class}) })
+			unicodeFoldStrings(func(n, class string) { cases = append(cases, nameCase{Name: n, Class: class}) })
 			bitFlipStrings(func(n, class string) {
 				if !seen[n] {
 					cases = append(cases, nameCase{Name: n, Class: class})
